@@ -81,6 +81,10 @@ def main(tier, replay):
         if t in ('bool', 'int32', 'string') or not quick:
             J('b-chunk-%s-k17' % n, n, 'HarnessPipeline', [0, 17, -1, 1, 1, (i + 1) % 3, 0, 0, 0, 0], stub=nostats(n))
             J('b-chunk-%s-k17-ps8' % n, n, 'HarnessPipeline', [0, 17, 1, 1, 1, 0, 0, 0, 8, 0], stub=nostats(n))
+    # one page of 520 records with alternating nil/non-nil structure: level streams of 65 bit-packed groups (the 63-group limit of a run header)
+    for n in ('flat_int32', 'flat_bool'):
+        J('b-chunk-%s-k520-alternating' % n, n, 'HarnessPipeline', [0, 520, -2, 1, 1, 0, 0, 0, 1000, 0], stub=nostats(n))
+        jobs[-1].setdefault('opt', {})['max_steps'] = 80000000
     # (c) whole pipeline on the minis (real statistics code included)
     for n in ('p1', 'p2', 'p3', 'p4', 'p5'):
         for cd in (0, 1, 2):
@@ -102,7 +106,7 @@ def main(tier, replay):
         ctx.update(ctxs[j['pkg'].split('/')[-1]])
     c.programs = len(P)
     c.bounds = {'a': 'per-record shred/assemble: 2 fully nondeterministic records (lists ≤ %d, strings ≤ 3 bytes) per core program; person/document 1 nondeterministic + 1 fixed-structure record; flat24 3 fixed-structure records' % ML,
-                'b': 'column chunks: 9 and 17 fixed-structure records per primitive type, page size symbolic ≥ 1 (and 8), strings ≤ 10 bytes',
+                'b': 'column chunks: 9 and 17 fixed-structure records per primitive type, page size symbolic ≥ 1 (and 8), strings ≤ 10 bytes; one page of 520 records with alternating structure (int32 and bool columns)',
                 'c': 'whole pipeline: %s nondeterministic + 1 fixed-structure record on p1..p5, every batch partition, page size symbolic ≥ 1, each codec' % ('1' if quick else '2'),
                 'outside': 'more records per file than stated; lists longer than %d; strings longer than 10 bytes; real snappy/gzip/thrift byte formats (stubs A1-A4)' % ML}
     c.assumptions = [STUB_ASSUMPTIONS[k] for k in ('A1', 'A2', 'A3', 'A4', 'A5', 'A6', 'A7')]
